@@ -110,6 +110,14 @@ def faults():
         return m
     yield ("width/array-per-element", w_array2)
 
+    for nn, ww in ((2, 5), (3, 7), (2, 7)):
+        def w_array3(nn=nn, ww=ww):
+            m = base()
+            m.sw = h.Signal(width=ww)
+            m.arr = nn * L()(a=m.sw, b=m.s1)      # a is 2 bits wide: ww is neither 2 nor nn*2 (but more than nn*2)
+            return m
+        yield (f"width/array-wider-than-n-ports/{nn}x2<-{ww}", w_array3)
+
     def w_pair():
         m = base()
         m.d = h.Diff()
@@ -321,6 +329,33 @@ def faults():
         return m
     yield ("name/clash", clash)
 
+    # two DIFFERENT modules made by equal generator calls (an uncached generator; a cached one across a cache reset)
+    for how in ("uncached", "cache-reset"):
+        def clash_gen(how=how):
+            @h.paramclass
+            class GP:
+                w = h.Param(dtype=int, desc="w", default=1)
+            state = {"n": 0}
+
+            def body(p: GP) -> h.Module:
+                state["n"] += 1
+                c = h.Module()
+                c.p = h.Port(width=p.w + (state["n"] > 1))     # the second module really is another one
+                return c
+            body.__name__ = "ClashGen"
+            G = h.generator(body, enable_cache=False) if how == "uncached" else h.generator(body)
+            m = base()
+            a = G(w=1)
+            if how == "cache-reset":
+                h.generator.cache.reset() if hasattr(getattr(h.generator, "cache", None), "reset") else \
+                    __import__("hdl21.generator", fromlist=["Generator"]).Generator.Cache.done.clear()
+            b = G(w=1)
+            assert a is not b and a.name == b.name
+            m.c1 = a(p=m.s1)
+            m.c2 = b(p=m.s2)
+            return m
+        yield (f"name/clash-generated/{how}", clash_gen)
+
 
 def sites(build, wrapfree=False):
     """the faulty module as top, and one / two levels below a clean parent"""
@@ -394,6 +429,11 @@ def run(ctx):
         if len(obs) < 3 and not info.get("unsupported"):
             ctx.checker_errors.append(f"only {len(obs)} loop obligations for {key}")
         ctx.discharge(obs, key + " [every member / every connection is checked]", info)
+    from contracts import c_arrays
+    aobs, ainfo = c_arrays.obligations()
+    for u in ainfo.get("unsupported", []):
+        ctx.unsupported.append((c_arrays.KEY, u))
+    ctx.discharge([o for o in aobs if "per-element-guard" in o.name], c_arrays.KEY + " [guard of the per-element branch]", ainfo)
     ck.pass_list_obligations(ctx)
     from contracts import c_portrefs
     ctx.verify(c_portrefs.engine(), [c_portrefs.VERIFY[1]])
